@@ -64,7 +64,7 @@ var rogueMutations = []string{"unknown-duid", "empty-duid", "empty-key", "other-
 	"cp-future", "cp-cseq-future", "cp-zero", "cp-swapped", "cp-nil", "ops-drop-first", "ops-repeat", "ops-reverse", "ops-foreign-cuid",
 	"ops-seq0", "ops-nil-id", "wrong-type", "unknown-collection", "unregistered-cuid", "admin-cuid", "empty-cuid", "no-packs",
 	"client-admin", "client-unknown-collection", "client-empty-cuid", "patch-unknown-collection", "patch-bad-json", "patch-array-json",
-	"patch-non-document", "collection-empty-name", "reset-unknown", "foreign-duid", "other-collection", "client-other-collection"}
+	"patch-non-document", "collection-empty-name", "reset-unknown", "foreign-duid", "other-collection", "client-other-collection", "used-duid"}
 
 func (r *run) baseRequest(i int, needOps bool) *model.PushPullMessage {
 	var cands []*call
@@ -100,6 +100,8 @@ func (r *run) rogue(e Ev) {
 		mut = rogueMutations[g.Intn(len(rogueMutations))]
 	}
 	needOps := strings.HasPrefix(mut, "ops-") || mut == "readonly-push"
+	var usedKey, usedBefore string
+	var usedNum int32
 	var method string
 	var req proto.Message
 	switch {
@@ -242,6 +244,42 @@ func (r *run) rogue(e Ev) {
 			if len(p.Operations) == 0 && p.CheckPoint != nil {
 				p.CheckPoint = &model.CheckPoint{Sseq: 0, Cseq: 0}
 			}
+		case "used-duid":
+			// An entry request (create / subscribe / both) for a fresh key that carries the id of a
+			// datatype living under ANOTHER key of the same collection, from a registered client that never
+			// touched that datatype, with the operations a creating client sends (a snapshot operation, seq 1).
+			dts, _ := r.readStore()
+			num := r.collNum(base.Collection)
+			var cands []string
+			for _, duid := range sortedKeys(dts) {
+				if di := dts[duid]; di.doc.CollectionNum == num && di.doc.Key != "?orphan" && len(di.ops) > 0 {
+					cands = append(cands, duid)
+				}
+			}
+			if len(cands) == 0 {
+				return
+			}
+			x := dts[cands[g.Intn(len(cands))]]
+			cuid := g.UID()
+			reg := r.sendAs("rogue", "ProcessClient", &model.ClientMessage{Header: model.NewMessageHeader(model.RequestType_CLIENTS), Collection: base.Collection, Cuid: cuid, ClientAlias: "rogue", SyncType: model.SyncType_MANUALLY})
+			if reg.err != nil {
+				return
+			}
+			base.Cuid = cuid
+			p.Key = fmt.Sprintf("uk%d", g.Intn(3))
+			p.DUID = x.doc.DUID
+			p.Type = kindOfType(x.doc.Type)
+			p.CheckPoint = &model.CheckPoint{Sseq: 0, Cseq: 0}
+			p.Option = uint32([]model.PushPullPackOption{model.PushPullBitCreate, model.PushPullBitSubscribe, model.PushPullBitCreate | model.PushPullBitSubscribe}[g.Intn(3)])
+			p.Operations = nil
+			if p.Option&uint32(model.PushPullBitCreate) != 0 {
+				op := cloneOp(x.ops[0].op)
+				op.ID = &model.OperationID{Era: 0, Lamport: 1, CUID: cuid, Seq: 1}
+				p.Operations = []*model.Operation{op}
+				p.CheckPoint.Cseq = 0
+			}
+			usedKey, usedNum = x.doc.Key, num
+			usedBefore = r.partition(num, usedKey)
 		case "unregistered-cuid":
 			base.Cuid = g.UID()
 		case "admin-cuid":
@@ -253,7 +291,7 @@ func (r *run) rogue(e Ev) {
 		}
 		method, req = "ProcessPushPull", base
 	}
-	before := r.storeDigest()
+	before := r.committedDigest()
 	foreignBefore := map[string]string{}
 	foreignDUID := ""
 	if pp, ok := req.(*model.PushPullMessage); ok && (mut == "foreign-duid" || mut == "other-collection") {
@@ -273,7 +311,13 @@ func (r *run) rogue(e Ev) {
 		r.fail("answered", r.prop+".answered", "no-answer/"+mut, "the mutated request (%s, %s) got no answer", method, mut)
 		return
 	}
-	after := r.storeDigest()
+	after := r.committedDigest()
+	if usedKey != "" {
+		r.probe("rogue-used-duid-sent")
+		if now := r.partition(usedNum, usedKey); now != usedBefore {
+			r.fail("iso", "C17.same-key-independent", "used-duid/changed", "an entry request for another key that carried the id of the datatype under %s (refused=%v, %s) changed what is stored for %s:\n%s", usedKey, refused(res), errText(res), usedKey, diffText(usedBefore, now))
+		}
+	}
 	if refused(res) {
 		r.probe("rogue-refused")
 		if before != after {
@@ -529,14 +573,14 @@ func (r *run) restPatch(e Ev) {
 			}
 		}
 	}
-	before := r.storeDigest()
+	before := r.committedDigest()
 	r.probe("rest-patch")
 	res := r.sendAs("rest", "PatchDocument", &model.PatchMessage{Collection: a.collection, Key: key, Json: target})
 	r.logf("REST patch %s/%s -> %s : err=%v", a.collection, key, clip(target, 200), res.err)
 	if existing != nil && existing.doc.Type != model.TypeOfDatatype_DOCUMENT.String() {
 		if res.err == nil {
 			r.fail("rest", "C19.rest-refuses-non-document", "accepted", "PatchDocument on %s, which holds a %s, was accepted", key, existing.doc.Type)
-		} else if r.storeDigest() != before {
+		} else if r.committedDigest() != before {
 			r.fail("rest", "C19.rest-refuses-non-document", "changed", "PatchDocument on a %s was refused but changed stored data", existing.doc.Type)
 		}
 		return
